@@ -104,7 +104,7 @@ func c19GenPool(t *rapid.T) c19PoolScenario {
 	default:
 		s.RatioPct = rapid.IntRange(1, 100).Draw(t, "ratioPct")
 	}
-	if rapid.IntRange(0, 2).Draw(t, "shiftClass") == 0 {
+	if rapid.IntRange(0, 2).Draw(t, "shiftClass") == 2 {
 		s.Shift = -rapid.IntRange(1, 4).Draw(t, "shift")
 	}
 	s.IPStack = rapid.SampledFrom([]string{"", "ipv4", "dual", "dual", "dual", "ipv6"}).Draw(t, "stack")
